@@ -419,6 +419,7 @@ type FuncContract struct {
 	At        map[string][]Clause // assertions at call sites, keyed by the normalised source text of the call
 	After     map[string][]Clause // assertions right after a call (results bound)
 	AtOpt     map[string]bool     // at-clauses whose call need not occur (at?)
+	Never     map[string]string   // call-text prefixes that must not occur (value: label)
 	Propagates bool               // every error returned by a callee must make this function return an error
 	NoProp    []string            // call texts (prefixes) whose error is deliberately discarded
 	Trusts    []Clause // postconditions assumed by callers but NOT checked against the body (listed as assumptions)
@@ -841,6 +842,20 @@ func (c *Contracts) loadFile(path string, pkgName string) error {
 			}
 			c.GlobalFrame[pkgName] = fs
 			cur = nil
+		case "never":
+			// never "<call text prefix>" label: no call whose source text starts with the prefix may occur in the
+			// function, other than calls named by an at / at? / after clause of the same contract
+			if cur == nil || !strings.HasPrefix(rest, "\"") {
+				return fmt.Errorf("%s:%d: never \"call text prefix\" label", path, j.line)
+			}
+			q := strings.Index(rest[1:], "\"")
+			if q < 0 {
+				return fmt.Errorf("%s:%d: unterminated call text", path, j.line)
+			}
+			if cur.Never == nil {
+				cur.Never = map[string]string{}
+			}
+			cur.Never[strings.Join(strings.Fields(rest[1:1+q]), "")] = strings.TrimSpace(rest[q+2:])
 		case "nocapturewrite":
 			// nocapturewrite <closure key>: a closure that outlives the call that created it (a registered callback):
 			// it must not assign to a variable it captured (state shared between its invocations)
